@@ -338,6 +338,35 @@ func (m *multi) returnResults(msg proto.Message, err error) {
 	}
 }
 
+// serverError returns the first exception of a multi response that means the
+// regionserver itself is unusable (see javaServerExceptions), or nil.
+func (m *multi) serverError(msg proto.Message) error {
+	mr, ok := msg.(*pb.MultiResponse)
+	if !ok {
+		return nil
+	}
+	check := func(e *pb.NameBytesPair) error {
+		if e == nil {
+			return nil
+		}
+		if err, ok := exceptionToError(e.GetName(), string(e.Value)).(ServerError); ok {
+			return err
+		}
+		return nil
+	}
+	for _, rar := range mr.GetRegionActionResult() {
+		if err := check(rar.GetException()); err != nil {
+			return err
+		}
+		for _, roe := range rar.GetResultOrException() {
+			if err := check(roe.GetException()); err != nil {
+				return err
+			}
+		}
+	}
+	return nil
+}
+
 // add adds the call and returns wether the batch is full.
 func (m *multi) add(calls []hrpc.Call) bool {
 	m.calls = append(m.calls, calls...)
